@@ -1734,6 +1734,12 @@ class SequenceOfAndSetOfBase(base.ConstructedAsn1Type):
             yield self.getComponentByPosition(idx)
 
     def _cloneComponentValues(self, myClone, cloneValueFlag):
+        if self._componentValues is noValue:
+            return
+
+        # the copy of a value is a value, also when there is nothing in it
+        myClone.clear()
+
         for idx, componentValue in self._componentValues.items():
             if componentValue is not noValue:
                 if isinstance(componentValue, base.ConstructedAsn1Type):
